@@ -220,6 +220,9 @@ func decodeKeyCharByEscapedChar(buf []byte, cursor int64) ([]byte, int64, error)
 		return []byte{'\t'}, cursor, nil
 	case 'u':
 		return decodeKeyCharByUnicodeRune(buf, cursor+1)
+	case nul:
+		// the input ends right after the backslash
+		return nil, 0, errors.ErrUnexpectedEndOfJSON("escaped string", cursor)
 	}
 	return nil, cursor, nil
 }
